@@ -112,6 +112,22 @@ func runC02(cfg Config, r *Result) {
 			}
 		}
 	}
+	// untyped empty literals against operands / declared types / parameters of every kind, in every typed position
+	// (harness/c02empty.go): the ill-typed combinations must be rejected, the accepted ones must not go wrong
+	for i := 0; i < cfg.N(1200, 12000); i++ {
+		src, fam := c02EmptyProgram(cfg.Rng)
+		d := semCase(model, r, src, SemOpts{StopAt: -1, YieldBudget: 100000}, true, "empty-"+fam+":")
+		if strings.HasPrefix(d.Impl.ParseErr, "gopanic") {
+			r.Dist("parser-gopanic(C03)")
+			continue
+		}
+		for _, p := range d.Impl.Phases {
+			if c02Bad(p.Class) {
+				r.Violate(Violation{Kind: "property", Key: "accepted-program-goes-wrong:" + p.Class + ":" + shortKey(firstLine(d.Impl.GoPanic)),
+					Detail: "an untyped empty literal next to an operand / declared type of another kind is accepted by the parser and the run goes wrong: " + p.Class + " " + d.Impl.GoPanic, Input: map[string]any{"program": src}, Impl: p})
+			}
+		}
+	}
 	// the certificate checker Static.wt on every parser-accepted tree (corpus, generated programs, witnesses)
 	runC02WT(cfg, r)
 }
